@@ -66,7 +66,9 @@ func runDecl(c *Ctx) {
 }
 
 func replayDecl(c *Ctx, cs Case) {
-	if cStr(cs, "what") == "opts" {
+	if w := cStr(cs, "what"); strings.HasSuffix(w, "-ptr") {
+		declPtrCase(c, cStrs(cs, "seq"), w == "args-ptr")
+	} else if w == "opts" {
 		declOptsCase(c, cStrs(cs, "seq"))
 	} else {
 		declArgsCase(c, cStrs(cs, "seq"))
@@ -80,7 +82,71 @@ func dashed(n string) string {
 	return "--" + n
 }
 
+// the same sequence declared through the *Ptr forms, every declaration bound to the same variable:
+// a taken name must still panic
+func declPtrCase(c *Ctx, seq []string, args bool) {
+	key := fmt.Sprintf("declarations %q through the Ptr forms into one shared variable", seq)
+	taken := map[string]bool{}
+	wantPanic := -1
+	for i, d := range seq {
+		names := strings.Fields(d)
+		if args {
+			names = []string{d}
+			if !argNameRE.MatchString(d) || d == "OPTIONS" {
+				wantPanic = i
+				break
+			}
+		}
+		for _, n := range names {
+			if taken[n] && wantPanic < 0 {
+				wantPanic = i
+			}
+		}
+		if wantPanic >= 0 {
+			break
+		}
+		for _, n := range names {
+			taken[n] = true
+		}
+	}
+	app := cli.App("app", "")
+	var sharedS string
+	var sharedL []int
+	gotPanic := -1
+	for i, d := range seq {
+		func() {
+			defer func() {
+				if recover() != nil {
+					gotPanic = i
+				}
+			}()
+			switch {
+			case args && i%2 == 0:
+				app.StringArgPtr(&sharedS, d, "", "")
+			case args:
+				app.IntsPtr(&sharedL, cli.IntsArg{Name: d})
+			case len(seq) == 2 || i%2 == 0:
+				app.StringOptPtr(&sharedS, d, "", "")
+			default:
+				app.IntsPtr(&sharedL, cli.IntsOpt{Name: d})
+			}
+		}()
+		if gotPanic >= 0 {
+			break
+		}
+	}
+	c.Count("ptr_form_sequences", 1)
+	if gotPanic != wantPanic {
+		what := "opts"
+		if args {
+			what = "args"
+		}
+		c.Violation("C18", key, Case{"what": what + "-ptr", "seq": seq}, fmt.Sprintf("panic at declaration %d", wantPanic), fmt.Sprintf("panic at declaration %d", gotPanic))
+	}
+}
+
 func declOptsCase(c *Ctx, seq []string) {
+	declPtrCase(c, seq, false)
 	c.Count("evaluations", 1)
 	key := fmt.Sprintf("option declarations %q", seq)
 	cs := func() Case { return Case{"what": "opts", "seq": seq} }
@@ -229,6 +295,7 @@ func declOptsCase(c *Ctx, seq []string) {
 }
 
 func declArgsCase(c *Ctx, seq []string) {
+	declPtrCase(c, seq, true)
 	c.Count("evaluations", 1)
 	key := fmt.Sprintf("argument declarations %q", seq)
 	cs := func() Case { return Case{"what": "args", "seq": seq} }
